@@ -142,6 +142,16 @@ func genOptimization(r *rng, index int) *Spec {
 		case 12:
 			sp.Timeline = append(sp.Timeline, TLEvent{AtMs: T, Kind: "kill_mysql", Host: master, Fault: true})
 			script = append(script, fmt.Sprintf("master_dies@%d", T/1000))
+			if r.chance(0.6) && len(ha) > 1 {
+				// a registered, relaxed candidate cannot be restored while the failover wants to start
+				x := ha[1+r.intn(len(ha)-1)]
+				pre := []string{"SET GLOBAL sync_binlog", "SET GLOBAL innodb_flush_log_at_trx_commit"}[r.intn(2)]
+				sp.StmtFail = append(sp.StmtFail, StmtFail{Host: x, Prefix: pre, Errno: 1105, FromMs: T - 2000, ToMs: T + int64(r.pickInt(6000, 12000, 25000))})
+				sp.Timeline = append(sp.Timeline, TLEvent{AtMs: 60, Kind: "zk_set", Arg: "/test/optimization_nodes/" + x, Arg2: `{"status":""}`})
+				sp.Timeline = append(sp.Timeline, TLEvent{AtMs: 100, Kind: "lag", Host: x, N: 5000})
+				sp.hostSpecByName(x).Init.FlushLog, sp.hostSpecByName(x).Init.SyncBinlog = 2, 1000
+				script = append(script, fmt.Sprintf("restore_fails(%s)", x))
+			}
 			T += 15000
 		case 0, 1, 2, 3:
 			lv := lagVals[r.intn(len(lagVals))]
